@@ -58,7 +58,7 @@ func (c *fctx) expr(e ast.Expr, want string) (string, string) {
 			return x.Name, "bool"
 		case x.Name == "nil" && strings.HasPrefix(want, "option "):
 			return "None", want
-		case x.Name == "nil" && (strings.HasPrefix(want, "list ") || strings.HasPrefix(want, "alist ")):
+		case x.Name == "nil" && (strings.HasPrefix(want, "list ") || strings.HasPrefix(want, "alist ") || strings.HasPrefix(want, "balist ")):
 			return "[]", want
 		case x.Obj != nil && c.names[x.Obj] != "":
 			return c.names[x.Obj], c.types[x.Obj]
@@ -69,6 +69,13 @@ func (c *fctx) expr(e ast.Expr, want string) (string, string) {
 			c.iota = t.constIota[x.Name]
 			v, ty := c.expr(t.consts[x.Name], "")
 			c.iota = old
+			if !t.constDone[x.Name] {
+				t.constDone[x.Name] = true
+				t.constDefs = append(t.constDefs, "Definition "+x.Name+" : "+ty+" := "+v+".")
+			}
+			return x.Name, ty
+		case isMapLit(t.vars[x.Name]): // package-level map with a literal initialiser (never assigned by the listed functions): a constant
+			v, ty := c.expr(t.vars[x.Name], "")
 			if !t.constDone[x.Name] {
 				t.constDone[x.Name] = true
 				t.constDefs = append(t.constDefs, "Definition "+x.Name+" : "+ty+" := "+v+".")
@@ -118,10 +125,9 @@ func (c *fctx) expr(e ast.Expr, want string) (string, string) {
 			}
 		}
 		m, mt := c.expr(x.X, "")
-		if strings.HasPrefix(mt, "alist ") {
-			vt := unparen(strings.TrimPrefix(mt, "alist "))
-			key, _ := c.expr(x.Index, "string")
-			return "odef " + t.zero(vt) + " (lookup " + paren(m) + " " + paren(key) + ")", vt
+		if vt, look, _, ok := mapType(mt); ok {
+			key, _ := c.expr(x.Index, "")
+			return "odef " + t.zero(vt) + " (" + look + " " + paren(m) + " " + paren(key) + ")", vt
 		}
 		if strings.HasPrefix(mt, "list ") { // xs[k]: assumed in range (Go would panic); the zero value otherwise
 			vt := unparen(strings.TrimPrefix(mt, "list "))
@@ -170,6 +176,8 @@ func (t *tr) isDropped(x *ast.CallExpr) bool {
 // isConversion: T(x) where T is a type name (builtin, or a named type of the package / the hints that is not a struct).
 func (c *fctx) isConversion(f ast.Expr) bool {
 	switch x := f.(type) {
+	case *ast.ArrayType: // []byte(s): a copy
+		return x.Len == nil
 	case *ast.Ident:
 		if x.Obj != nil && c.names[x.Obj] != "" {
 			return false
@@ -184,6 +192,15 @@ func (c *fctx) isConversion(f ast.Expr) bool {
 		return ok && id.Obj == nil && c.t.named[id.Name+"_"+x.Sel.Name] != nil
 	}
 	return false
+}
+
+func isMapLit(e ast.Expr) bool {
+	cl, ok := e.(*ast.CompositeLit)
+	if !ok {
+		return false
+	}
+	_, ok = cl.Type.(*ast.MapType)
+	return ok
 }
 
 func isLit(e ast.Expr) bool {
@@ -313,6 +330,19 @@ func (c *fctx) composite(x *ast.CompositeLit, want string) (string, string) {
 			}
 		}
 		return out, ty
+	case strings.HasPrefix(ty, "alist "), strings.HasPrefix(ty, "balist "):
+		vt, _, _, _ := mapType(ty)
+		var xs []string
+		for _, e := range x.Elts {
+			kv, ok := e.(*ast.KeyValueExpr)
+			if !ok {
+				t.fail(x, "map literal")
+			}
+			k, _ := c.expr(kv.Key, "")
+			v, _ := c.expr(kv.Value, vt)
+			xs = append(xs, "("+k+", "+v+")")
+		}
+		return "[" + strings.Join(xs, "; ") + "]", ty
 	case strings.HasPrefix(ty, "list "):
 		el := unparen(strings.TrimPrefix(ty, "list "))
 		var xs []string
@@ -336,6 +366,14 @@ func (c *fctx) call(x *ast.CallExpr, want string) (string, string) {
 	}
 	name := t.src(x.Fun)
 	arg := func(i int, want string) (string, string) { v, ty := c.expr(x.Args[i], want); return paren(v), ty }
+	if id, ok := x.Fun.(*ast.Ident); ok && id.Obj != nil && c.lambdas[id.Obj] != "" { // a local function
+		out := c.names[id.Obj]
+		for i := range x.Args {
+			v, _ := arg(i, "")
+			out += " " + v
+		}
+		return out, c.lambdas[id.Obj]
+	}
 	switch {
 	case t.unit.bytestr && (name == "strings.HasPrefix" || name == "strings.Index") && len(x.Args) == 2: // Lib/GoLib.v
 		a, _ := arg(0, "list Z")
@@ -513,6 +551,12 @@ func (c *fctx) foreign(x *ast.CallExpr, want string) (string, []string, string) 
 		t.fail(x, "call %s (callee or result type not understood)", firstLine(t.src(x)))
 	}
 	for i := range x.Args {
+		if sel, ok := x.Args[i].(*ast.SelectorExpr); ok { // f(x, pkg.G) with a function pkg.G: the Section variable f_pkg_G
+			if id, ok := sel.X.(*ast.Ident); ok && id.Obj == nil && t.consts[id.Name+"_"+sel.Sel.Name] == nil && t.vars[id.Name] == nil && t.consts[id.Name] == nil {
+				coqName += "_" + id.Name + "_" + sel.Sel.Name
+				continue
+			}
+		}
 		v, ty := c.expr(x.Args[i], "")
 		args, tys = append(args, paren(v)), append(tys, paren(ty))
 	}
